@@ -787,6 +787,60 @@ func constInt(info *types.Info, e ast.Expr) (int, bool) {
 func checkErrorRecording(c *core.Ctx, p *load.Prog) {
 	pkg := p.Bebop()
 	n := 0
+	// helpers that hand the error of a read on to their caller: a call of one
+	// is itself a read whose error the caller must record (fixpoint)
+	propagators := map[types.Object]bool{}
+	isRead := func(call *ast.CallExpr) bool {
+		fn := trCanon(call.Fun)
+		if fn == "tr.readByte" || fn == "tr.r.ReadRune" || fn == "tr.r.ReadBytes" || fn == "tr.r.ReadByte" || fn == "tr.r.ReadSlice" || fn == "tr.r.ReadString" {
+			return true
+		}
+		if cal := load.Callee(pkg.TypesInfo, call); cal != nil && propagators[cal] {
+			return true
+		}
+		return false
+	}
+	for changed := true; changed; {
+		changed = false
+		for _, fd := range funcsOfFiles(p, pkg, "tokenize.go", "token_tree.go") {
+			obj := pkg.TypesInfo.Defs[fd.Name]
+			if obj == nil || propagators[obj] {
+				continue
+			}
+			sig, _ := obj.Type().(*types.Signature)
+			if sig == nil || sig.Results().Len() == 0 || !isErrorType(sig.Results().At(sig.Results().Len()-1).Type()) {
+				continue
+			}
+			ev := map[types.Object]bool{}
+			ast.Inspect(fd.Body, func(m ast.Node) bool {
+				if as, ok := m.(*ast.AssignStmt); ok && len(as.Rhs) == 1 && len(as.Lhs) >= 2 {
+					if call, ok := as.Rhs[0].(*ast.CallExpr); ok && isRead(call) {
+						if id, ok := as.Lhs[len(as.Lhs)-1].(*ast.Ident); ok {
+							ev[pkg.TypesInfo.ObjectOf(id)] = true
+						}
+					}
+				}
+				return true
+			})
+			ast.Inspect(fd.Body, func(m ast.Node) bool {
+				if _, isLit := m.(*ast.FuncLit); isLit {
+					return false
+				}
+				if r, ok := m.(*ast.ReturnStmt); ok && len(r.Results) == sig.Results().Len() {
+					last := ast.Unparen(r.Results[len(r.Results)-1])
+					if id, ok := last.(*ast.Ident); ok && ev[pkg.TypesInfo.ObjectOf(id)] {
+						propagators[obj] = true
+						changed = true
+					}
+					if call, ok := last.(*ast.CallExpr); ok && isRead(call) {
+						propagators[obj] = true
+						changed = true
+					}
+				}
+				return true
+			})
+		}
+	}
 	for _, fd := range funcsOfFiles(p, pkg, "tokenize.go", "token_tree.go") {
 		reads := false
 		errVars := map[types.Object]bool{}
@@ -799,8 +853,7 @@ func checkErrorRecording(c *core.Ctx, p *load.Prog) {
 			if !ok {
 				return true
 			}
-			fn := trCanon(call.Fun)
-			if fn == "tr.readByte" || fn == "tr.r.ReadRune" || fn == "tr.r.ReadBytes" {
+			if isRead(call) {
 				if len(as.Lhs) >= 2 {
 					if id, ok := as.Lhs[len(as.Lhs)-1].(*ast.Ident); ok && id.Name != "_" {
 						if o := pkg.TypesInfo.ObjectOf(id); o != nil && isErrorType(o.Type()) {
@@ -839,8 +892,7 @@ func checkErrorRecording(c *core.Ctx, p *load.Prog) {
 				if !ok {
 					return false
 				}
-				fn := trCanon(call.Fun)
-				return fn == "tr.readByte" || fn == "tr.r.ReadRune" || fn == "tr.r.ReadBytes"
+				return isRead(call)
 			}
 			// what is known about E is the set of cases still possible:
 			// nil, io.EOF, or some other failure
@@ -987,6 +1039,10 @@ func checkErrorRecording(c *core.Ctx, p *load.Prog) {
 						return true
 					})
 					if r, ok := n.(*ast.ReturnStmt); ok {
+						// handing E to the caller: the caller records it (checked there)
+						if selfObj := info.Defs[fd.Name]; selfObj != nil && propagators[selfObj] && len(r.Results) > 0 && isE(r.Results[len(r.Results)-1]) {
+							return
+						}
 						if mayFail(s) && !rec {
 							recorded = false
 							whyRec = "return at " + p.Pos(r.Pos()) + " is reached with a possibly failing read unrecorded"
@@ -1058,7 +1114,8 @@ func checkBlockCommentLength(c *core.Ctx, p *load.Prog) {
 		return true
 	})
 	// the byte variable read in the loop
-	var readVar types.Object
+	var readVar, readChunk types.Object
+	undecided := ""
 	ast.Inspect(fd.Body, func(n ast.Node) bool {
 		// the byte of this iteration: first result of a call on the token reader that yields a byte
 		if as, ok := n.(*ast.AssignStmt); ok && len(as.Rhs) == 1 && len(as.Lhs) == 2 {
@@ -1068,6 +1125,14 @@ func checkBlockCommentLength(c *core.Ctx, p *load.Prog) {
 						if b, isB := sig.Results().At(0).Type().Underlying().(*types.Basic); isB && b.Kind() == types.Uint8 {
 							if id, ok := as.Lhs[0].(*ast.Ident); ok {
 								readVar = info.ObjectOf(id)
+							}
+						}
+						// or the bytes of this iteration: a fresh slice read from the input
+						if sl, isS := sig.Results().At(0).Type().Underlying().(*types.Slice); isS {
+							if b, isB := sl.Elem().Underlying().(*types.Basic); isB && b.Kind() == types.Uint8 {
+								if id, ok := as.Lhs[0].(*ast.Ident); ok {
+									readChunk = info.ObjectOf(id)
+								}
 							}
 						}
 					}
@@ -1087,7 +1152,30 @@ func checkBlockCommentLength(c *core.Ctx, p *load.Prog) {
 			return true
 		}
 		id, isId := ast.Unparen(be.X).(*ast.Ident)
+		if ix, isIx := ast.Unparen(be.X).(*ast.IndexExpr); isIx && readChunk != nil {
+			// a byte of the slice read in this iteration comes after the opener
+			if bid, isB := ast.Unparen(ix.X).(*ast.Ident); isB && info.ObjectOf(bid) == readChunk {
+				reassigned := false
+				ast.Inspect(fd.Body, func(m ast.Node) bool {
+					if as, isA := m.(*ast.AssignStmt); isA {
+						for _, l := range as.Lhs {
+							if lid, isL := l.(*ast.Ident); isL && info.ObjectOf(lid) == readChunk {
+								if call, isC := as.Rhs[0].(*ast.CallExpr); !(len(as.Rhs) == 1 && isC && load.Callee(info, call) != nil) {
+									reassigned = true
+								}
+							}
+						}
+					}
+					return true
+				})
+				if !reassigned {
+					ok = true
+					return false
+				}
+			}
+		}
 		if !isId {
+			undecided = "the terminator test reads " + wire.Canon(be.X) + ": not a recognised form"
 			ok = false
 			why = "the terminator test reads " + wire.Canon(be.X) + ", which can be the '*' of the opening /*"
 			return false
@@ -1113,6 +1201,33 @@ func checkBlockCommentLength(c *core.Ctx, p *load.Prog) {
 		}
 		return false
 	})
+	if !ok && undecided != "" {
+		// only a look into the token text itself (or the concrete parameter) is the known defect
+		isTokenText := false
+		ast.Inspect(fd.Body, func(n ast.Node) bool {
+			if be, is := n.(*ast.BinaryExpr); is && be.Op == token.EQL {
+				if v, isC := constInt(info, be.Y); isC && v == '*' {
+					if ix, isIx := ast.Unparen(be.X).(*ast.IndexExpr); isIx {
+						if t := info.TypeOf(ix.X); t != nil {
+							if _, isSel := ast.Unparen(ix.X).(*ast.SelectorExpr); isSel {
+								isTokenText = true
+							}
+							if pid, isP := ast.Unparen(ix.X).(*ast.Ident); isP {
+								if v, isV := info.ObjectOf(pid).(*types.Var); isV && isParamOf(info, fd, v) {
+									isTokenText = true
+								}
+							}
+						}
+					}
+				}
+			}
+			return true
+		})
+		if !isTokenText {
+			c.Undecide("blockCommentToken: " + undecided)
+			return
+		}
+	}
 	c.Check("R7", fmt.Sprintf("a block comment token is at least %d bytes long", need), p.Pos(fd.Pos()), ok && need > 0,
 		why+": `/*/` would be accepted as a comment of 3 bytes and readBlockComment's slice panics")
 }
@@ -1180,4 +1295,23 @@ func checkPushbackOwners(c *core.Ctx, p *load.Prog) {
 	}
 	c.Count("pushback_flag_writes", n)
 	c.Floor("pushback_flag_writes", 2)
+}
+
+
+// isParamOf: v is a parameter (or the receiver) of fd.
+func isParamOf(info *types.Info, fd *ast.FuncDecl, v *types.Var) bool {
+	lists := []*ast.FieldList{fd.Type.Params, fd.Recv}
+	for _, fl := range lists {
+		if fl == nil {
+			continue
+		}
+		for _, f := range fl.List {
+			for _, nm := range f.Names {
+				if info.Defs[nm] == types.Object(v) {
+					return true
+				}
+			}
+		}
+	}
+	return false
 }
